@@ -315,6 +315,18 @@ func ruleSingleOwnerFields(c *Ctx, rule string) {
 			seen[construct] = true
 			oc, known := singleOwner[key]
 			if !known {
+				// (a) written under some lock: consistently guarded fields are C15.1's business once tabled; here it
+				// is enough that the write is not bare
+				if ml := le.Must(i); len(ml) > 0 {
+					c.check(rule, construct+":under-lock", true, "field not in the tables, but written with "+ml.String()+" held", p.ipos(i))
+					return
+				}
+				// (b) written by an option closure (a function literal inside a function that returns an …Option): options
+				// are applied by the constructors to the object under construction
+				if isOptionClosure(f) {
+					c.trivial(rule, construct+":option", true, "configuration-phase write inside an option closure (applied by the constructor before the object is shared)", p.ipos(i))
+					return
+				}
 				c.check(rule, "NEW-CONSTRUCT:"+construct, false, "field written after construction with no mutex guard and no recorded ordering argument: conflicting accesses cannot be ordered", p.ipos(i))
 				return
 			}
@@ -646,3 +658,16 @@ func ruleProxyNoDiscard(c *Ctx, rule string) {
 }
 
 var _ = token.MUL
+
+// isOptionClosure: f is a function literal nested in a function whose result type is named …Option.
+func isOptionClosure(f *ssa.Function) bool {
+	if f.Parent() == nil {
+		return false
+	}
+	r := rootFn(f)
+	res := r.Signature.Results()
+	if res.Len() != 1 {
+		return false
+	}
+	return strings.HasSuffix(typeKey(res.At(0).Type()), "Option")
+}
